@@ -423,6 +423,9 @@ func (d *V1) do(op Op) Resp {
 	case KSetInterpreter:
 		c.SetInterpreter(interpreter.NewNativeInterpreter())
 		return Resp{}
+	case KActivateDebug:
+		c.ActivateDebug()
+		return Resp{}
 	case KSetICM:
 		v1.SetItemCollectionMetrics(c, map[string][]*dynamodb.ItemCollectionMetrics{})
 		return Resp{}
